@@ -101,6 +101,16 @@ func (vc *VC) resolveMods(sc *SpecScope, c *Contract) (targets []ModTarget, whol
 						targets = append(targets, ModTarget{comp: cn, sort: srt, lvl: 1, idx: base.Term, text: m.Text})
 					})
 					continue
+				case "deref":
+					pv := vc.evalSpec(sc, x.Args[0])
+					if pv.Addr == nil {
+						vc.specFail(sc, "modifies %s: target of the pointer is not statically known", m.Text)
+					}
+					l := *pv.Addr
+					vc.leafComps(l.comp, l.T, l.lvl, func(cn, srt string) {
+						targets = append(targets, ModTarget{comp: cn, sort: srt, lvl: l.lvl, idx: l.outer, text: m.Text})
+					})
+					continue
 				case "global":
 					name := x.Args[0].String()
 					o := sc.pkg.P.Types.Scope().Lookup(name)
